@@ -851,16 +851,20 @@ class UniformTime(np.ndarray, TimeInterface):
         self._refuse_collapse(int(d_interval))
         # numpy refuses operands of the wrong shape or type here, before any
         # attribute has been touched:
+        # the shift is read first: the operand may be this axis itself or a
+        # view of it (t += t), which the next line changes
+        shift = int(np.asarray(val).flat[0])
         np.ndarray.__iadd__(self, val)
-        self._set_sampling(int(self.t0) + int(np.asarray(val).flat[0]),
+        self._set_sampling(int(self.t0) + shift,
                            int(self.sampling_interval) + int(d_interval))
         return self
 
     def __isub__(self, val):
         val, d_interval = self._convert_and_check_uniformity(val)
         self._refuse_collapse(-int(d_interval))
+        shift = int(np.asarray(val).flat[0])
         np.ndarray.__isub__(self, val)
-        self._set_sampling(int(self.t0) - int(np.asarray(val).flat[0]),
+        self._set_sampling(int(self.t0) - shift,
                            int(self.sampling_interval) - int(d_interval))
         return self
 
